@@ -23,6 +23,9 @@ pub struct PoolIndex {
     pub panic_kinds: Vec<Vec<u32>>,
     /// Ok entries per evaluator
     pub ok_by_ev: Vec<Vec<u32>>,
+    /// failing entries per evaluator
+    pub err_by_ev: Vec<Vec<u32>>,
+    pub panic_by_ev: Vec<Vec<u32>>,
     /// (evaluator, token) -> non-panicking entries whose text uses that function / operator: a run can
     /// concentrate on one of them, so that concurrent calls exercise the same code with different arguments
     pub fn_buckets: Vec<(u8, String, Vec<u32>)>,
@@ -84,12 +87,20 @@ pub fn index_pool(pool: &mut Pool) -> PoolIndex {
         let mut ek: BTreeMap<(u8, String), Vec<u32>> = BTreeMap::new();
         let mut pk: BTreeMap<(u8, String), Vec<u32>> = BTreeMap::new();
         ix.ok_by_ev = vec![Vec::new(); 5];
+        ix.err_by_ev = vec![Vec::new(); 5];
+        ix.panic_by_ev = vec![Vec::new(); 5];
         for (i, e) in pool.entries.iter().enumerate() {
             let key = |m: &str| -> String { m.chars().filter(|c| !c.is_ascii_digit()).take(28).collect() };
             match &e.oracle {
                 Outcome::Ok(_) => ix.ok_by_ev[e.call.ev as usize].push(i as u32),
-                Outcome::Err(v, m) => ek.entry((e.call.ev as u8, format!("{} {}", v, key(m)))).or_default().push(i as u32),
-                Outcome::Panic(m) => pk.entry((e.call.ev as u8, key(m))).or_default().push(i as u32),
+                Outcome::Err(v, m) => {
+                    ix.err_by_ev[e.call.ev as usize].push(i as u32);
+                    ek.entry((e.call.ev as u8, format!("{} {}", v, key(m)))).or_default().push(i as u32)
+                }
+                Outcome::Panic(m) => {
+                    ix.panic_by_ev[e.call.ev as usize].push(i as u32);
+                    pk.entry((e.call.ev as u8, key(m))).or_default().push(i as u32)
+                }
             }
         }
         ix.err_kinds = ek.into_values().collect();
@@ -398,7 +409,16 @@ pub fn make_spec(pool: &Pool, ix: &PoolIndex, seed: u64, kind: RunKind, allow_in
     let total_calls_long = if let RunKind::Long { calls } = kind { calls } else { 0 };
     // long histories: half of them concentrate on one evaluator, so that per-evaluator state (a bounded cache,
     // a growing buffer) sees thousands of distinct calls; the hot-expression theme is mostly off there
-    let focus: Option<Ev> = if total_calls_long > 0 && r.chance(0.5) { Some(*r.pick(&ALL_EV)) } else { None };
+    // (with a change under test: more often, and mostly on an evaluator the change touches)
+    let focus: Option<Ev> = if total_calls_long > 0 && r.chance(if ix.hint_evs.is_empty() { 0.5 } else { 0.75 }) {
+        if !ix.hint_evs.is_empty() && r.chance(0.75) {
+            Some(*r.pick(&ix.hint_evs))
+        } else {
+            Some(*r.pick(&ALL_EV))
+        }
+    } else {
+        None
+    };
     // long histories: 40% of them draw every call from a small working set (an application re-evaluates a bounded set
     // of formulas), so that each formula is seen many times: adaptive state that switches on after N sightings,
     // per-formula caches at capacity, aliases that go stale on eviction. Whole sibling groups go in together.
@@ -533,7 +553,20 @@ pub fn make_spec(pool: &Pool, ix: &PoolIndex, seed: u64, kind: RunKind, allow_in
                 // failure KINDS; then, often, an "aftershock": the next call on this thread goes to the same
                 // evaluator (state a failing call leaves behind is most likely met by its own evaluator)
                 let panic = f2 && k < 0.08;
-                let e = if panic {
+                // the evaluator this run (or the change under test) concentrates on fails in its own ways: most failing
+                // calls of such a run are its own
+                let own: Option<usize> = match focus {
+                    Some(fe) => Some(fe as usize),
+                    None if !ix.hint_evs.is_empty() => Some(*r.pick(&ix.hint_evs) as usize),
+                    None => None,
+                };
+                let own_list: &[u32] = match own {
+                    Some(ev) if r.chance(0.7) => if panic { &ix.panic_by_ev[ev] } else { &ix.err_by_ev[ev] },
+                    _ => &[],
+                };
+                let e = if !own_list.is_empty() {
+                    *r.pick(own_list)
+                } else if panic {
                     if r.chance(0.5) {
                         *r.pick(&ix.panic)
                     } else {
